@@ -155,10 +155,21 @@ func checkHeadRequestCapScope(c *an.Ctx, id string) {
 		t := c.T(fn)
 		an.Instrs(fn, func(in ssa.Instruction) {
 			def, ok := in.(*ssa.Call)
-			if !ok || !strings.HasPrefix(an.StaticFullName(&def.Call), "context.WithTimeout") || len(def.Call.Args) < 2 {
+			if !ok || len(def.Call.Args) < 2 {
 				return
 			}
-			if !strings.Contains(t.Of(def.Call.Args[1]), "NetworkHeadRequestTimeout") {
+			switch name := an.StaticFullName(&def.Call); {
+			case strings.HasPrefix(name, "context.WithTimeout"):
+				if !strings.Contains(t.Of(def.Call.Args[1]), "NetworkHeadRequestTimeout") {
+					return
+				}
+			case strings.HasPrefix(name, "context.WithDeadline"):
+				// WithTimeout(p, d) is WithDeadline(p, time.Now().Add(d))
+				dl := an.Stable(t.Of(def.Call.Args[1]))
+				if !strings.Contains(dl, "time.Now") || !strings.Contains(dl, "Add") || !strings.Contains(dl, "NetworkHeadRequestTimeout") {
+					return
+				}
+			default:
 				return
 			}
 			n++
